@@ -59,11 +59,11 @@ func (c19) Gen(r *rand.Rand, tier string, idx int) *core.Plan {
 		case x < 9:
 			p.Ops = append(p.Ops, core.Op{Kind: "push", I: []int64{s, int64(r.IntN(2)), int64(r.IntN(10)), int64(r.IntN(3))}})
 		case x < 12:
-			p.Ops = append(p.Ops, core.Op{Kind: "foreign", I: []int64{s, int64(r.IntN(6))}})
+			p.Ops = append(p.Ops, core.Op{Kind: "foreign", I: []int64{s, int64(r.IntN(8))}})
 		case x < 13:
 			p.Ops = append(p.Ops, core.Op{Kind: "hostile", I: []int64{s, int64(r.IntN(4))}})
 		case x < 14:
-			p.Ops = append(p.Ops, core.Op{Kind: "legacy", I: []int64{s, int64(r.IntN(5)), int64(r.IntN(2))}})
+			p.Ops = append(p.Ops, core.Op{Kind: "legacy", I: []int64{s, int64(r.IntN(8)), int64(r.IntN(2))}})
 		case x < 15:
 			p.Ops = append(p.Ops, core.Op{Kind: "reopen"})
 		default:
@@ -181,6 +181,10 @@ func (l c19) Exec(env *core.Env) *core.Result {
 			case "foreign":
 				subj := subjects[s]
 				switch op.Int(1) {
+				case 6, 7: // an image manifest whose config type is merely spelled like the notation type
+					cfg, _ := world.EmptyConfig(ctx, inner, []string{"Application/Vnd.CNCF.Notary.Signature", registry.ArtifactTypeNotation + "; profile=x"}[op.Int(1)-6])
+					l, _ := world.PushBlob(ctx, inner, world.JWS, []byte(fmt.Sprint("near-miss-type ", len(trace))))
+					world.PushManifest(ctx, inner, ocispec.Manifest{Config: cfg, Layers: []ocispec.Descriptor{l}, Subject: &subj})
 				case 0: // another artifact type on the same subject
 					cfg, _ := world.EmptyConfig(ctx, inner, "application/vnd.example.sbom")
 					l, _ := world.PushBlob(ctx, inner, "application/spdx+json", []byte(fmt.Sprint("sbom ", len(trace))))
@@ -230,6 +234,12 @@ func (l c19) Exec(env *core.Env) *core.Result {
 					}
 				case 1:
 					world.PushLegacyArtifact(ctx, inner, "application/vnd.example.sbom", []ocispec.Descriptor{bd}, &subj, ann)
+				case 5: // artifact types that are merely spelled like the notation type are other artifact types
+					world.PushLegacyArtifact(ctx, inner, "Application/Vnd.CNCF.Notary.Signature", []ocispec.Descriptor{bd}, &subj, ann)
+				case 6:
+					world.PushLegacyArtifact(ctx, inner, registry.ArtifactTypeNotation+"; profile=x", []ocispec.Descriptor{bd}, &subj, ann)
+				case 7:
+					world.PushLegacyArtifact(ctx, inner, registry.ArtifactTypeNotation+" ", []ocispec.Descriptor{bd}, &subj, ann)
 				case 2:
 					bd2, _ := world.PushBlob(ctx, inner, mt, append([]byte("second "), blob...))
 					if d, err := world.PushLegacyArtifact(ctx, inner, registry.ArtifactTypeNotation, []ocispec.Descriptor{bd, bd2}, &subj, ann); err == nil {
